@@ -252,4 +252,141 @@ theorem export_victim_delete_tls (c : Pipeline.Conn) (A T T' : List Pkt) (kl : L
 
 end Conv
 
+-- ====================================================================== 2. TLS: the capture starts mid-connection
+section Headless
+open TLX.Session TLX.Props.C03
+
+variable {δ : Type}
+
+/-- a record `handle_tls_handshake_record` takes for a hello of type `t` (1 = ClientHello, 2 = ServerHello) when no
+    ChangeCipherSpec has been seen: content type 22 and first body byte `t` -/
+def LooksHello (t : UInt8) (r : Rec) : Prop := r.typ = some 0x16 ∧ r.body.head? = some t
+
+/-- what holds of a session that has no decryptor: nothing decrypted, every entry of `application_traffic` is a metadata
+    entry carrying the record verbatim -/
+def Keyless (s : St δ) : Prop :=
+  s.dec = none ∧ ∀ e ∈ s.traffic, e.isApp = false ∧ e.data = some e.record.raw
+
+theorem keyless_pushMeta (m : Bool) (s : St δ) (r : Rec) (srv : Bool) (h : Keyless s) : Keyless (pushMeta m s r srv) := by
+  unfold pushMeta
+  split
+  · refine ⟨h.1, ?_⟩
+    intro e he
+    simp only [St.push, List.mem_append, List.mem_singleton] at he
+    rcases he with he | rfl
+    · exact h.2 e he
+    · exact ⟨rfl, rfl⟩
+  · exact h
+
+theorem keyless_of_eq {a b : St δ} (hd : a.dec = b.dec) (ht : a.traffic = b.traffic) (h : Keyless b) : Keyless a :=
+  ⟨hd.trans h.1, by rw [ht]; exact h.2⟩
+
+theorem handshakeFinished_keyless (O : Ops δ) (m : Bool) (s : St δ) (r : Rec) (srv : Bool) (h : Keyless s) :
+    Keyless (handshakeFinished O m s r srv).st := by
+  unfold handshakeFinished
+  rw [h.1]
+  exact h
+
+/-- `handle_tls_server_hello` on a session that never saw a ClientHello: `self.client_random` raises, no decryptor -/
+theorem serverHello_headless (O : Ops δ) (s : St δ) (r : Rec) (hc : s.cr = none) (h : Keyless s) :
+    Keyless (serverHello O s r).st ∧ (serverHello O s r).st.cr = none := by
+  have hl : Keyless (latch s) ∧ (latch s).cr = none := by
+    unfold latch; split
+    · exact ⟨keyless_of_eq rfl rfl h, hc⟩
+    · exact ⟨h, hc⟩
+  unfold serverHello
+  simp only
+  split
+  · exact hl
+  · split
+    · exact hl
+    · have hv : ∀ a b c, Keyless (chooseVersion (latch s) a b c) ∧ (chooseVersion (latch s) a b c).cr = none := by
+        intro a b c
+        unfold chooseVersion
+        repeat' split
+        all_goals exact ⟨keyless_of_eq rfl rfl hl.1, hl.2⟩
+      unfold serverHelloKeys
+      rw [(hv _ _ _).2]
+      exact hv _ _ _
+
+/-- one record through a session without decryptor and without `client_random`, when the record is no ClientHello -/
+theorem handleRecord_headless (O : Ops δ) (m : Bool) (s : St δ) (r : Rec) (srv : Bool)
+    (hc : s.cr = none) (h : Keyless s) (hr : ¬ LooksHello 0x01 r) :
+    Keyless (handleRecord O m s r srv) ∧ (handleRecord O m s r srv).cr = none := by
+  unfold handleRecord handleRecordRaw
+  cases ht : r.typ with
+  | none => exact ⟨h, hc⟩
+  | some t =>
+    simp only
+    split
+    · rename_i h16
+      have hh : Keyless (handshakeRecord O m s r srv).st ∧ (handshakeRecord O m s r srv).st.cr = none := by
+        unfold handshakeRecord
+        split
+        · rw [tryExcept_id_st]
+          refine ⟨handshakeFinished_keyless O m s r srv h, ?_⟩
+          unfold handshakeFinished; rw [h.1]; exact hc
+        · cases hb : r.body with
+          | nil => exact ⟨h, hc⟩
+          | cons b0 rest =>
+            simp only
+            split
+            · rename_i hb1
+              exact absurd ⟨by rw [ht, h16], by rw [hb, hb1]; rfl⟩ hr
+            · split
+              · have := serverHello_headless O s r hc h
+                cases hsh : serverHello O s r with
+                | ok s' => rw [hsh] at this; exact this
+                | raised s' =>
+                  rw [hsh] at this
+                  simp only [tryExcept, Out.st] at this ⊢
+                  exact ⟨keyless_of_eq rfl rfl this.1, this.2⟩
+              · rw [tryExcept_id_st]
+                refine ⟨handshakeFinished_keyless O m s r srv h, ?_⟩
+                unfold handshakeFinished; rw [h.1]; exact hc
+      cases hrr : handshakeRecord O m s r srv with
+      | ok s1 =>
+        rw [hrr] at hh
+        simp only [Out.st] at hh ⊢
+        refine ⟨keyless_pushMeta m s1 r srv hh.1, ?_⟩
+        unfold pushMeta; split <;> exact hh.2
+      | raised s1 => rw [hrr] at hh; exact hh
+    · split
+      · have : (s.canDecrypt && s.dec.isSome) = false := by simp [h.1]
+        simp only [this]
+        exact ⟨h, hc⟩
+      · split
+        · simp only [Out.st]
+          have ha : ∀ lvl, Keyless (alert s lvl) ∧ (alert s lvl).cr = none := by
+            intro lvl; unfold alert; split
+            · exact ⟨h, hc⟩
+            · exact ⟨keyless_of_eq rfl rfl h, hc⟩
+          cases r.body with
+          | nil => exact ⟨keyless_pushMeta m s r srv h, by unfold pushMeta; split <;> exact hc⟩
+          | cons lvl _ =>
+            exact ⟨keyless_pushMeta m _ r srv (ha lvl).1, by unfold pushMeta; split <;> exact (ha lvl).2⟩
+        · split
+          · simp only [Out.st]
+            cases srv
+            · exact ⟨keyless_pushMeta m _ r false (keyless_of_eq rfl rfl h), by unfold pushMeta; split <;> exact hc⟩
+            · exact ⟨keyless_pushMeta m _ r true (keyless_of_eq rfl rfl h), by unfold pushMeta; split <;> exact hc⟩
+          · exact ⟨h, hc⟩
+
+/-- **A session that never sees a ClientHello exports no plaintext.** Whatever records it is handed — as long as none of
+    them is taken for a ClientHello —, for every decryptor behaviour: no decryptor is ever installed (`generate_keys` reads
+    `self.client_random`, which does not exist), no application entry is ever made, and `application_traffic` holds only
+    metadata entries that carry their record verbatim (with `-a`; without it, nothing). -/
+theorem headless_run (O : Ops δ) (m : Bool) (rs : List (Rec × Bool)) (hr : ∀ x ∈ rs, ¬ LooksHello 0x01 x.1) :
+    Keyless (run O m St.init rs) := by
+  suffices ∀ s : St δ, s.cr = none → Keyless s → Keyless (run O m s rs) from this St.init rfl ⟨rfl, by simp [St.init]⟩
+  induction rs with
+  | nil => intro s _ h; exact h
+  | cons x rest ih =>
+    intro s hc h
+    simp only [run, List.foldl_cons]
+    obtain ⟨h1, h2⟩ := handleRecord_headless O m s x.1 x.2 hc h (hr x (by simp))
+    exact ih (fun y hy => hr y (by simp [hy])) _ h2 h1
+
+end Headless
+
 end TLX.Props.ExportFaults2
